@@ -99,7 +99,9 @@ def poly_cases(ctx):
                     ctx.fail("ghq:nodes", f"N={n}: stored nodes/weights differ from numpy hermgauss by {ut:.2e}/{uw:.2e} relative",
                              {"kind": "nodes", "N": n, "dtype": dtype_name})
                 for rep in range(reps):
-                    shape = rng.choice([(), (3,), (2, 2)])
+                    # 0-dim inputs only with float64 nodes: a 0-dim float64 tensor does not promote float32 nodes, the whole
+                    # rule would then run in float32 (outside the float64 scope of the check)
+                    shape = rng.choice([(), (3,), (2, 2)] if dtype_name == "float64" else [(1,), (3,), (2, 2)])
                     cnt = 1
                     for s in shape:
                         cnt *= s
@@ -158,7 +160,7 @@ def check_poly(ctx, recs, want_driver=True):
     replies = C.run_driver("C13", req) if want_driver else None
     if replies is None:
         replies = _python_exact(req)
-    worst = {}
+    worst, ratio = {}, {}
     for i, r in enumerate(recs):
         n, m, v = r["N"], r["m"], r["v"]
         c = math.sqrt(2 * v)
@@ -188,12 +190,14 @@ def check_poly(ctx, recs, want_driver=True):
         rel = err / max(A, 1e-300)
         wk = (r["dtype"], n)
         worst[wk] = max(worst.get(wk, 0.0), rel)
+        ratio[wk] = max(ratio.get(wk, 0.0), err / tol)
         if not err <= tol:
             ctx.fail(key, f"GaussHermiteQuadrature1D({n}) [{r['dtype']} nodes] of {desc} against N({m!r}, {v!r}) = {r['got']!r}, "
                      f"exact {want!r} (|err| {err:.3e} > tol {tol:.1e})",
                      {"kind": "ghq", "N": n, "dtype": r["dtype"], "m": C.rat_str(m), "v": C.rat_str(v), "k": r.get("k"),
                       "cs": [C.rat_str(c_) for c_ in r.get("cs", [])]})
     ctx.notes["ghq_observed_relative_error"] = {f"{d}:N={n}": w for (d, n), w in sorted(worst.items())}
+    ctx.notes["ghq_worst_error_over_tolerance"] = {f"{d}:N={n}": w for (d, n), w in sorted(ratio.items())}
     if want_driver:
         bad = 0
         for j, i in enumerate(fl_idx):
@@ -320,8 +324,11 @@ def check_likelihood_integrals(ctx):
                         lik.deg_free = par["df"]
                     if name == "Beta":
                         lik.scale = par["scale"]
-                # the documented conditional density (Beta: as parsed from the docstring)
-                beta_fns = (fa, fb)
+                # the documented conditional density (Beta: as parsed from the docstring; when the docstring and the
+                # code disagree that is reported once by check_conditionals, and the integrals are checked against
+                # the parameters the code uses)
+                beta_fns = (fa, fb) if abs(fa(0.3, 2.0) - code_fns[0](0.3, 2.0)) < 1e-12 and \
+                    abs(fb(0.3, 2.0) - code_fns[1](0.3, 2.0)) < 1e-12 else code_fns
                 g = lambda f: _mp_logp(name, par, mp.mpf(y), f, beta_fns)
                 sd = mp.sqrt(v)
                 pts = sorted({m - 14 * sd, m, m + 14 * sd} | ({mp.mpf(y)} if name == "Laplace" and m - 14 * sd < y < m + 14 * sd else set()))
